@@ -546,6 +546,13 @@ func runC07(c *core.Ctx) {
 			releaseHosts()
 			c.Floor("HashChildren calls in MerkleProve", n, 2)
 		}
+		// every (flag, sibling) element that was read is folded into the running hash before the next element is
+		// read or the value is returned: an element with an unknown flag must not be skipped
+		for _, ci := range ir.Calls(fn, func(ci ssa.CallInstruction) bool { o := ir.CalleeObj(ci); return o != nil && o.Name() == "NextHash" }) {
+			nexts := ir.Calls(fn, func(x ssa.CallInstruction) bool { o := ir.CalleeObj(x); return o != nil && o.Name() == "NextByte" })
+			sinks := append(append([]ir.Sink{}, succ...), ir.CallSinks(nexts, "next element read")...)
+			eng.MustPassCall(c, "C07.path-proof", fn, "HashChildren(fold, sibling)", func(x ssa.CallInstruction) bool { return ir.CalleeIs(x, hch) }, sinks, "next element / value returned (every element read is folded)", &eng.Opt{Start: ci.(ssa.Instruction)})
+		}
 		// reads under !eof
 		for _, nm := range []string{"NextByte", "NextHash", "NextVarBytes"} {
 			for _, ci := range ir.Calls(fn, func(ci ssa.CallInstruction) bool { o := ir.CalleeObj(ci); return o != nil && o.Name() == nm }) {
